@@ -676,13 +676,13 @@ def _post_tags(case):
 
 
 def generate(rng, tier):
-    N = 2000 if tier == 'quick' else 15000
+    N = 2000 if tier == 'quick' else 40000
     cases = []
     for _ in range(N):
         cases.append(_flat_case(rng))
     for _ in range(N // 6):
         cases.append(_cty_case(rng))
-    per = 15 if tier == 'quick' else 150
+    per = 15 if tier == 'quick' else 300
     for _ in range(per):
         for ev in EVALS:
             cases.append(_flat_case(rng, kind='level', ev=ev, dmode='skew', vkind='skew'))          # iterations >= 2
